@@ -225,7 +225,7 @@ def uses_constant(w, a):
 
 
 def generate(rng, tier):
-    n_worlds = {"quick": 45, "thorough": 320}[tier]
+    n_worlds = {"quick": 45, "thorough": 220}[tier]
     cases = []
     for _ in range(n_worlds):
         w = G.gen_world(rng, max_actions=2)
@@ -318,7 +318,10 @@ def fixture_cases(rng, tier):
             continue
         names = sorted(info["actions"], key=lambda n: -(len(info["actions"][n]["params"]) + 2 * info["actions"][n]["n_when"]
                                                         + 2 * info["actions"][n]["n_forall"]))
-        chosen = names[:per_domain]
+        big = [n for n in names if info["actions"][n].get("text_len", 0) > 6000]
+        if big:
+            skipped.append({"file": job["rel"], "why": "actions with more than 6000 characters of text left out: %s" % ", ".join(big)})
+        chosen = [n for n in names if n not in big][:per_domain]
         w = FixtureWorld(info["consts"])
         for name in chosen:
             ai = info["actions"][name]
@@ -416,7 +419,7 @@ def run(args):
         fx, fx_skipped = fixture_cases(rng, args.tier)
         cases = corpus_cases() + fx + generate(rng, args.tier) + exhaustive_cases(rng, {"quick": 2, "thorough": 30}[args.tier])
     cfg = run_impl([{"op": "core.numeric_config"}], nproc=1)[0]
-    hashseeds = [0] if args.tier == "quick" else [0, 1, 2]
+    hashseeds = [0] if args.tier == "quick" else [0, 1]
     all_units, all_verdicts = [], ""
     info_total = {"shards": 0, "shard_errors": [], "cmd": ""}
     stats = {"cases": 0, "kinds": {}, "admissible_kinds": 0, "foreign_kinds": 0, "nparams": {}, "probes": 0,
